@@ -15,6 +15,15 @@
      missed             at the end of the run a scheduling whose time has long passed was never awakened
      clock-died         a clock thread is no longer serving after a task raised
      stuck              deadlock / a call that never returned
+   Conditions / flow variables in real time (the C11 clause "a routine waiting on a Condition or FlowVar resumes
+   exactly once after the condition holds and is signalled, never before", with signals from plain threads):
+   wait, signal and unhang are atomic with respect to one another, so
+     parked-though-true        a routine parked although the condition held before its step began
+     resumed-before-condition  wait() let a routine pass although the condition could not yet hold
+     lost-wakeup               at the end a routine is still parked although a signal was invoked after the
+                               condition became true, or an unhang was invoked after it had parked
+   and a signal / unhang re-schedules every parked routine on its clock with delay 0 at its linearization point
+   (then the clock clauses above apply: exactly once, in order, at that logical time).
    stop(): a tempo clock whose stop() was called keeps serving until its thread ends; from then on nothing of
    it may wake.  Incoming OSC datagrams are scheduling calls made by the receive thread (sched(0, dispatch)).
 
@@ -23,8 +32,9 @@
 EXTENDS Naturals, Integers, Sequences, FiniteSets, TLC, QueueOps
 
 Never == 1073741824      \* how the drivers write float('inf')
-NoCall == [api |-> "", clock |-> "", task |-> "", arg |-> 0, arg2 |-> 1, inner |-> FALSE, lin |-> TRUE]
-NoCur == [clock |-> "", task |-> "", time |-> 0, lt |-> 0, on |-> FALSE]
+NoCall == [api |-> "", clock |-> "", task |-> "", arg |-> 0, arg2 |-> 1, inner |-> FALSE, lin |-> TRUE, cv |-> ""]
+NoCur == [clock |-> "", task |-> "", time |-> 0, lt |-> 0, on |-> FALSE, fm |-> {}]
+CondApis == {"signal", "unhang", "fset"}
 NoBlk == [w |-> FALSE, dl |-> 0 - 1, nt |-> FALSE]
 
 Empty == [x \in {} |-> 0]
@@ -43,6 +53,10 @@ Init0(clockthread) ==
      th2c |-> clockthread,                          \* thread name -> clock name (function)
      stopping |-> {},                               \* tempo clocks whose stop() has been called
      stopped |-> {},                                \* ... and whose thread has ended (everything cancelled)
+     fmay |-> {},                                   \* conditions whose test may already read true
+     fmust |-> {},                                  \* conditions whose test certainly reads true
+     sigok |-> {},                                  \* conditions signalled (call invoked) after they certainly held
+     parked |-> <<>>,                               \* routines waiting: [cv, t: task, c: its clock, due: must be woken]
      bad |-> "ok"]
 
 (* exact tempo arithmetic; Div flags non-representable results so that they surface as machinery errors *)
@@ -64,7 +78,7 @@ NoMissedHead(st, now) ==
             => (b.dl # 0 - 1 /\ (b.dl <= HeadSecs(st, c) \/ b.dl <= now))   \* a deadline already reached is no sleep
 
 (* ---- effect of an API call at its linearization point ---- *)
-Lin(st, th, call, now) ==
+LinClock(st, th, call, now) ==
     LET c == call.clock
         base == IF call.inner /\ c # "app" THEN Get(st.cur, th, NoCur).lt ELSE now
     IN
@@ -87,6 +101,23 @@ Lin(st, th, call, now) ==
                           !.bad = IF ~S2BExact(m, base) THEN "nondyadic" ELSE st.bad]
       [] OTHER -> st
 
+RECURSIVE WakeAll(_, _, _, _, _)
+WakeAll(st, th, ps, inner, now) ==
+    IF ps = <<>> THEN st
+    ELSE LET p == Head(ps)
+             s1 == LinClock(st, th, [NoCall EXCEPT !.api = "sched", !.clock = p.c, !.task = p.t, !.inner = inner], now)
+         IN WakeAll(s1, th, Tail(ps), inner, now)
+
+Lin(st, th, call, now) ==
+    IF call.api \notin CondApis THEN LinClock(st, th, call, now)
+    ELSE LET cv == call.cv
+             s0 == IF call.api = "fset" THEN [st EXCEPT !.fmust = st.fmust \cup {cv}] ELSE st   \* value stored before signal()
+             fire == call.api = "unhang" \/ cv \in s0.fmust
+             Mine(p) == p.cv = cv
+             Others(p) == p.cv # cv
+         IN IF ~fire THEN s0
+            ELSE WakeAll([s0 EXCEPT !.parked = SelectSeq(s0.parked, Others)], th, SelectSeq(s0.parked, Mine), call.inner, now)
+
 Step(st, e) ==
     LET th == e.th
         c == e.clock
@@ -99,11 +130,22 @@ Step(st, e) ==
                            !.pend = Put(st.pend, c, <<>>)])
       [] e.op = "call" ->
             LET call == [api |-> e.api, clock |-> c, task |-> e.task, arg |-> e.arg, arg2 |-> e.arg2,
-                         inner |-> e.inner, lin |-> FALSE]
+                         inner |-> e.inner, lin |-> FALSE, cv |-> e.cv]
                 \* inside a task the main lock is already held: the call takes effect at once
                 now == e.inner \/ e.api = "stop"       \* stop() only starts the stopping thread
-                s1 == IF now THEN Lin(st, th, call, e.now) ELSE st
+                \* what the invocation of a signalling call owes: whoever is parked now (unhang), whoever is or gets
+                \* parked on a condition that already holds (signal), a flow variable that is being bound (fset)
+                owes == e.api = "unhang" \/ (e.api = "signal" /\ e.cv \in st.fmust) \/ e.api = "fset"
+                sc == IF e.api \notin CondApis THEN st
+                      ELSE [st EXCEPT !.fmay = IF e.api = "fset" THEN st.fmay \cup {e.cv} ELSE st.fmay,
+                                      !.sigok = IF owes /\ e.api # "unhang" THEN st.sigok \cup {e.cv} ELSE st.sigok,
+                                      !.parked = [i \in 1..Len(st.parked) |->
+                                                     IF owes /\ st.parked[i].cv = e.cv THEN [st.parked[i] EXCEPT !.due = TRUE]
+                                                     ELSE st.parked[i]]]
+                s1 == IF now THEN Lin(sc, th, call, e.now) ELSE sc
             IN Chk([s1 EXCEPT !.infl = Put(s1.infl, th, [call EXCEPT !.lin = now])])
+      [] e.op = "cset" ->
+            Chk([st EXCEPT !.fmay = st.fmay \cup {e.cv}, !.fmust = st.fmust \cup {e.cv}])
       [] e.op = "acq" ->
             LET call == Get(st.infl, th, NoCall) IN
             IF e.lock = "Lmain" /\ ~call.lin
@@ -134,7 +176,7 @@ Step(st, e) ==
                      tsec == TimeSecs(st, c, en.p)
                      s1 == [st EXCEPT !.pend = Put(st.pend, c, Without(q, e.task)),
                                       !.cur = Put(st.cur, th, [clock |-> c, task |-> e.task, time |-> en.p,
-                                                               lt |-> e.lt, on |-> TRUE])]
+                                                               lt |-> e.lt, on |-> TRUE, fm |-> st.fmust])]
                  IN
                  IF IsTempo(c) /\ ~B2SExact(st.map[c], en.p) THEN R0(st, "nondyadic")
                  ELSE IF i # 1 THEN R0(s1, "order")
@@ -148,7 +190,11 @@ Step(st, e) ==
                 s0 == [st EXCEPT !.cur = [x \in DOMAIN st.cur \ {th} |-> st.cur[x]]]
             IN
             IF ~k.on THEN R0(st, "end-without-begin")
-            ELSE IF e.res = "ret" /\ cc \in DOMAIN st.pend /\ cc \notin st.stopped
+            ELSE IF e.res = "park" THEN
+                 IF e.cv \in k.fm THEN R0(s0, "parked-though-true")
+                 ELSE Chk([s0 EXCEPT !.parked = Append(s0.parked, [cv |-> e.cv, t |-> k.task, c |-> cc, due |-> FALSE])])
+            ELSE IF e.res = "pass" /\ e.cv \notin st.fmay THEN R0(s0, "resumed-before-condition")
+            ELSE IF e.res \in {"ret", "pass"} /\ cc \in DOMAIN st.pend /\ cc \notin st.stopped
             THEN LET time == IF cc = "app" THEN e.now + e.val ELSE k.time + e.val   \* AppClock drifts (documented)
                      q == Insert(Without(st.pend[cc], k.task), [p |-> time, s |-> st.ctr, t |-> k.task])
                  IN Chk([s0 EXCEPT !.pend = Put(s0.pend, cc, q), !.ctr = st.ctr + 1])
@@ -159,6 +205,7 @@ Step(st, e) ==
             THEN R0(st, "missed")
             ELSE IF \E i \in 1..Len(e.dead) : e.dead[i] \notin st.stopped THEN R0(st, "clock-died")
             ELSE IF ~e.users_done THEN R0(st, "stuck")
+            ELSE IF \E i \in 1..Len(st.parked) : st.parked[i].due \/ st.parked[i].cv \in st.sigok THEN R0(st, "lost-wakeup")
             ELSE Chk(st)
       [] e.op = "exit" ->
             \* a clock thread ends only because its clock was stopped; then everything pending is cancelled
